@@ -359,6 +359,34 @@ fn run_large<C: Suite>(c: &Case) -> Outcome {
             Err(e) => o.fail(format!("{tag}/{kind:?}-refresh-failed"), format!("{ctx}: {e}")),
         }
     }
+    // a dealer whose zero-constant refreshing polynomial has 65536 + t coefficients (its published commitment,
+    // 65536 + t - 1 entries, re-completed by the participant, has a length that wraps to t in 16 bits): this
+    // changes the threshold and must be refused like any other threshold change
+    if c.root == KeySrc::Dealer && (C::name() == "ed25519" || C::name() == "secp256k1-tr") {
+        let id = grp.ids[1];
+        let long = 65536usize + c.t as usize;
+        let mut coeffs: Vec<frost_core::Scalar<C>> = vec![zero::<C>()];
+        for k in 1..c.t {
+            coeffs.push(sc_seeded_nz::<C>(&format!("wrap-refresh:{k}")));
+        }
+        coeffs.resize(long, one::<C>());
+        let mut elems: Vec<frost_core::Element<C>> = coeffs[1..c.t as usize].iter().map(|s| gen_mul::<C>(*s)).collect();
+        elems.resize(long - 1, G::<C>::generator());
+        let x = id_scalar::<C>(&id);
+        let mut acc = zero::<C>();
+        for cf in coeffs.iter().rev() {
+            acc = acc * x + *cf;
+        }
+        let bad = SecretShare::<C>::new(id, fc::keys::SigningShare::new(acc), VerifiableSecretSharingCommitment::new(elems.iter().map(|e| fc::keys::CoefficientCommitment::new(*e)).collect()));
+        o.count("transitions", 1);
+        match C::w_refresh_share(bad, &grp.kps[&id]) {
+            Ok(kp) => o.fail(
+                format!("{tag}/dealer-threshold-change-accepted"),
+                format!("large n={} t={}: a refreshing share on a zero-constant polynomial of {long} coefficients was accepted (recorded threshold {})", c.n, c.t, kp.min_signers()),
+            ),
+            Err(_) => o.count("refusals_refused", 1),
+        }
+    }
     o.class("large");
     o
 }
